@@ -467,7 +467,8 @@ def make_jobs(ctx, n_explicit, n_contingent, n_dom_trials):
         # variant: duplicates and another order
         D = S + [list(ctx.rng.choice(S)) for _ in range(ctx.rng.randint(1, 2))]
         ctx.rng.shuffle(D)
-        add(fam="explicit", P=P, inits=D, base=b["id"], variant="dup")
+        if k % 2 == 0:
+            add(fam="explicit", P=P, inits=D, base=b["id"], variant="dup")
         # variants: one added state at a seeded position (the judge decides from the tags the compiler kept
         # whether it was dropped as dominated)
         for _ in range(n_dom_trials):
@@ -489,7 +490,7 @@ def make_jobs(ctx, n_explicit, n_contingent, n_dom_trials):
 
 def run(ctx):
     q = ctx.quick
-    n_explicit, n_contingent, n_dom = (40, 60, 1) if q else (300, 400, 2)
+    n_explicit, n_contingent, n_dom = (50, 40, 2) if q else (300, 300, 3)
     jobs = make_jobs(ctx, n_explicit, n_contingent, n_dom)
     with Pool(POOL, initializer=_warm) as pool:
         recs = pool.map(worker, jobs, chunksize=2)
